@@ -16,6 +16,9 @@ pub(super) struct State {
     last_send_access: Option<Access>,
     /// Last access that was a receive operation.
     last_recv_access: Option<Access>,
+    /// Last access that was a non-blocking receive attempt. Its result
+    /// depends on the sends that came before it.
+    last_try_recv_access: Option<Access>,
 
     /// A synchronization point for synchronizing the sending threads and the
     /// channel.
@@ -47,6 +50,8 @@ pub(super) enum Action {
     MsgSend,
     /// Receive a message
     MsgRecv,
+    /// Receive a message if there is one
+    MsgTryRecv,
 }
 
 impl Channel {
@@ -56,6 +61,7 @@ impl Channel {
                 msg_cnt: 0,
                 last_send_access: None,
                 last_recv_access: None,
+                last_try_recv_access: None,
                 sender_synchronize: Synchronize::new(),
                 receiver_synchronize: VecDeque::new(),
                 created: location,
@@ -103,6 +109,25 @@ impl Channel {
     pub(crate) fn recv(&self, location: Location) {
         self.state
             .branch_disable(Action::MsgRecv, self.is_empty(), location);
+        self.take_message();
+    }
+
+    /// Receives a message if the channel is not empty. Returns `false` if
+    /// there was no message.
+    pub(crate) fn try_recv(&self, location: Location) -> bool {
+        // Whether a message is found depends on the order with the sends, so
+        // this is a scheduling point.
+        self.state.branch_action(Action::MsgTryRecv, location);
+
+        if self.is_empty() {
+            return false;
+        }
+
+        self.take_message();
+        true
+    }
+
+    fn take_message(&self) {
         super::execution(|execution| {
             let state = self.state.get_mut(&mut execution.objects);
             let thread_id = execution.threads.active_id();
@@ -162,17 +187,31 @@ impl State {
         }
     }
 
-    pub(super) fn last_dependent_access(&self, action: Action) -> Option<&Access> {
-        match action {
-            Action::MsgSend => self.last_send_access.as_ref(),
-            Action::MsgRecv => self.last_recv_access.as_ref(),
-        }
+    /// Returns the accesses the action depends on. Sends depend on sends and
+    /// receives on receives; a receive attempt depends on both, and both
+    /// depend on it.
+    pub(super) fn dependent_accesses(&self, action: Action) -> impl Iterator<Item = &Access> {
+        let (send, recv) = match action {
+            Action::MsgSend => (true, false),
+            Action::MsgRecv => (false, true),
+            Action::MsgTryRecv => (true, true),
+        };
+
+        let send = self.last_send_access.as_ref().filter(|_| send);
+        let recv = self.last_recv_access.as_ref().filter(|_| recv);
+
+        send.into_iter()
+            .chain(recv)
+            .chain(self.last_try_recv_access.as_ref())
     }
 
     pub(super) fn set_last_access(&mut self, action: Action, path_id: usize, version: &VersionVec) {
-        match action {
-            Action::MsgSend => Access::set_or_create(&mut self.last_send_access, path_id, version),
-            Action::MsgRecv => Access::set_or_create(&mut self.last_recv_access, path_id, version),
-        }
+        let last = match action {
+            Action::MsgSend => &mut self.last_send_access,
+            Action::MsgRecv => &mut self.last_recv_access,
+            Action::MsgTryRecv => &mut self.last_try_recv_access,
+        };
+
+        Access::set_or_create(last, path_id, version);
     }
 }
